@@ -164,32 +164,25 @@ def run(E: Engine, rep: Report, tier: str) -> dict:
             ga = GuardAnalysis(E, GuardSpec("blocking-duration-check", _never, est_blocking_check), slots_append)
             viol = [v for v in ga.run(E.R.effective(f))[0] if v["function"] == f.short]
             rep.check(not viol, "PASS", f"{f.short}|append-dominated-by-duration-check", f"{len(apps)} slots.append site(s) dominated by the blocking _check_duration", f"a slot can be appended without the blocking sequence-duration check: {[v['event'] + ' @ ' + v['where'] for v in viol]}", E.where(f))
-    if n_app < 4:
-        rep.error(f"only {n_app} slots.append sites found in _Schedule (expected >= 4)")
+    if n_app < 3:
+        rep.error(f"only {n_app} slots.append sites found in _Schedule (expected >= 3: delay, target, pulse)")
     # the value checked against the maximum duration IS the end time of the slot that gets scheduled
+    from .. import sym as _sym
+    from .symutil import S as _S, arg as _arg, has as _has, is_ as _is, sh as _sh
+
     for mname in ("add_delay", "add_target", "make_next_pulse_slot"):
         f = E.method(SCHED, mname)
-        flm = E.flow(f)
-        slot_tf = []
-        for n in ast.walk(f.node):
-            if isinstance(n, ast.Call) and (dotted(n.func) or "") == "_TimeSlot" and len(n.args) >= 3:
-                slot_tf.append(n)
-        checks = [e.node for _nd, _i, e in flm.all_events() if e.kind == "call" and any(c.innermost() is chk for c, _m in e.callees)]
-        ok = bool(checks) and bool(slot_tf)
-        why = ""
+        Sf = _S(E, f)
+        slots_ = [l for l in Sf.calls("_TimeSlot") if l.fn == f.short]
+        checks = [l for l in Sf.log if l.fn == f.short and l.kind == "call" and l.target == ("attr", ("name", "self"), "_check_duration")]
+        ok = bool(checks) and bool(slots_)
+        why = "no duration check / slot construction found" if not ok else ""
         for c in checks:
-            a = c.args[0] if c.args else None
-            if not isinstance(a, ast.Name):
-                ok, why = False, f"_check_duration is applied to `{norm(a) if a is not None else '?'}`, not to the slot's end-time variable"
-                continue
-            nd_c = flm.node_of(c)
-            for sl in slot_tf:
-                b = sl.args[2]
-                nd_s = flm.node_of(sl)
-                if not (isinstance(b, ast.Name) and b.id == a.id):
-                    ok, why = False, f"the slot ends at `{norm(b)}` but `{a.id}` is what gets checked"
-                elif nd_c is not None and nd_s is not None and flm.reaching_defs(nd_c.id, a.id) != flm.reaching_defs(nd_s.id, a.id):
-                    ok, why = False, f"`{a.id}` is redefined between the duration check and the slot construction"
+            a = _arg(c, 0, "t")
+            for sl in slots_:
+                b = _arg(sl, 2, "tf")
+                if a != b:
+                    ok, why = False, f"the slot ends at `{_sh(b, 100)}` but `{_sh(a, 100)}` is what gets checked"
         rep.check(ok, "PASS", f"_Schedule.{mname}|checked-value-is-slot-end", "the sequence-duration check is applied to the very end time stored in the new slot", f"in _Schedule.{mname} {why}: a slot ending after the device's maximum sequence duration could be scheduled", E.where(f))
     # the one appender outside the scheduler takes the literal initial slot
     ats = E.method(SEQ, "_add_to_schedule")
@@ -204,8 +197,22 @@ def run(E: Engine, rep: Report, tier: str) -> dict:
         rep.check(ok, "PASS", f"{caller.short}|_add_to_schedule-initial-slot", "only the literal initial target slot (\"target\", -1, 0, ...) is appended outside the scheduler", f"_add_to_schedule is called with {norm(arg) if arg is not None else '?'}", E.where(caller, n))
 
     # ---------------------------------------------------------- PASS-5
-    callers = sorted({c.short for c, _e in E.callers_of(add_pulse)})
     allowed = {"Sequence._add", "_Schedule.enable_eom"}
+
+    def reaches_only_allowed(g, depth: int = 0) -> bool:
+        """g is an allowed caller, or a private scheduler helper all of whose callers are."""
+        if g.short in allowed:
+            return True
+        if depth >= 3 or not (g.cls is not None and g.cls.qualname == SCHED and g.name.startswith("_") and not g.name.startswith("__")):
+            return False
+        cs = [c for c, _e in E.callers_of(g)]
+        return bool(cs) and all(reaches_only_allowed(c, depth + 1) for c in cs)
+
+    direct = {c.short: c for c, _e in E.callers_of(add_pulse)}
+    callers = sorted(c if c in allowed or not reaches_only_allowed(g) else c + " (helper of an allowed caller)" for c, g in direct.items())
+    bad_callers = sorted(c for c, g in direct.items() if not reaches_only_allowed(g))
+    allowed = allowed | {c for c in direct if c not in bad_callers}
+    callers = sorted(direct)
     rep.check(set(callers) <= allowed and "Sequence._add" in callers, "PASS", "_Schedule.add_pulse|who-may-call", f"callers = {callers}", f"_Schedule.add_pulse is called from {sorted(set(callers) - allowed)}: a pulse can be scheduled without passing the validation in Sequence._add", E.where(add_pulse))
     # interprocedural: every public method reaching add_pulse's append passes a validator
     def est_validator(fl_: FunctionFlow, e: Event) -> bool:
@@ -246,18 +253,11 @@ def run(E: Engine, rep: Report, tier: str) -> dict:
     # ----------------------------------------------------------- GUARD
     rows = load_table("guards_c01.json")["rows"]
     check_rows(E, rep, "GUARD", rows)
-    # clock rounding: only when not a multiple
-    fvd = E.flow(ch_vd)
-    abv = abstractor(fvd)
-    ok = False
-    for n in ast.walk(ch_vd.node):
-        if isinstance(n, ast.If):
-            for conj in abv.literals(n.test):
-                for lit in conj:
-                    a = lit.atom
-                    if a is not None and a.rel == "NotEq" and "Mod" in a.lhs.tags and a.lhs.has_root("duration") and a.lhs.has_root("self.clock_period") and "const:0" in a.rhs.roots:
-                        ok = not any(isinstance(x, ast.Raise) for x in ast.walk(n))
-    rep.check(ok, "GUARD", "Channel.validate_duration|round-only-when-not-multiple", "duration adjusted (not rejected) iff duration % clock_period != 0", "the clock-multiple adjustment guard `duration % clock_period != 0` is gone or now rejects", E.where(ch_vd))
+    # clock rounding: only when not a multiple, and up to the next multiple
+    r = _S(E, ch_vd).ret
+    m = _has(r, "Q_d if Q_x % self.clock_period == 0 else Q_r")
+    ok = m is not None and m["Q_r"][0] != "raise" and _is(m["Q_r"], "Q_d + self.clock_period - Q_d % self.clock_period", {"Q_d": m["Q_d"]}) is not None and _is(m["Q_d"], "int(duration)") is not None
+    rep.check(ok, "GUARD", "Channel.validate_duration|round-only-when-not-multiple", "duration adjusted (not rejected) iff duration % clock_period != 0, up to the next multiple of the clock period", f"the clock-multiple adjustment `d if d % clock_period == 0 else d + clock_period - d % clock_period` is gone or now rejects: {_sh(r, 300)}", E.where(ch_vd))
     rep.floor("GUARD", 13)
 
     # ---------------------------------------------------------- FINITE
